@@ -1,0 +1,57 @@
+//go:build verif
+
+// Contracts for the directory use case, read by /verif/govc.
+package dir
+
+//@ pure func depsOk(u *UseCase) bool = u != nil && u.dRepo != nil && u.nameGen != nil
+
+// The directory repository, seen through this package's interface: the registered write directories
+// (ghost set world.dirReg of paths, world.dirCnt per root) and their current fill.
+//@ ghost field (world).dirCnt map[string]int
+
+//@ iface dirRepository.GetRoots
+//@   params ctx
+//@   ensures counts: result1 == nil ==> forall i int :: 0 <= i && i < len(result0) ==> result0[i].Count == world.dirCnt[result0[i].Path] && result0[i].Count >= 0
+
+//@ iface dirRepository.Get
+//@   params ctx
+//@   modifies mem[string]
+//@   ensures fresh:  result1 == nil ==> fresh(backing(result0)) || len(result0) == 0
+//@   ensures names:  result1 == nil ==> forall i int :: 0 <= i && i < len(result0) ==> uuidCanonical(result0[i].Name)
+//@   ensures roots:  result1 == nil ==> forall r string :: world.dirCnt[r] > 0 ==> exists i int :: 0 <= i && i < len(result0) && result0[i].Root == r
+//@   ensures frame:  memsame(string)
+
+//@ iface dirRepository.Create
+//@   params ctx, d
+//@   modifies world.dirCnt
+//@   ensures added:  result == nil ==> world.dirCnt[d.Root] == old(world.dirCnt[d.Root]) + 1
+//@   ensures others: forall r string :: (r != d.Root || result != nil) ==> world.dirCnt[r] == old(world.dirCnt[r])
+
+//@ iface dirRepository.Remove
+//@   params ctx, d
+//@   modifies world.dirCnt
+//@   ensures others: forall r string :: r != d.Root ==> world.dirCnt[r] == old(world.dirCnt[r])
+//@   ensures down:   world.dirCnt[d.Root] >= old(world.dirCnt[d.Root]) - 1
+
+//@ iface generator.Generate
+//@   ensures uuid: uuidCanonical(result)
+
+// Get offers, for writing, only directories that have room, each named by a UUID; a root that had
+// no directory gets one, and a full directory is replaced by a fresh empty one in the same root.
+//@ func (*UseCase).Get
+//@   requires deps:   depsOk(u) && u.maxCount > 0
+//@   modifies world.dirCnt, model.Dir.*, mem[string]
+//@   ensures  room:   result1 == nil ==> forall i int :: 0 <= i && i < len(result0) ==> result0[i].Count < u.maxCount
+//@   ensures  names:  result1 == nil ==> forall i int :: 0 <= i && i < len(result0) ==> uuidCanonical(result0[i].Name)
+//@   exitassert roots: result1 == nil ==> forall j int :: 0 <= j && j < len(roots) ==> exists i int :: 0 <= i && i < len(result0) && result0[i].Root == roots[j].Path
+//@ loop (*UseCase).Get#1
+//@   invariant idx:   -1 <= rangeindex && rangeindex + 1 <= len(roots)
+//@   invariant made:  forall j int :: 0 <= j && j <= rangeindex ==> world.dirCnt[roots[j].Path] > 0
+//@   invariant keep:  forall r string :: world.dirCnt[r] >= old(world.dirCnt[r])
+//@   decreases len(roots) - rangeindex
+//@ loop (*UseCase).Get#2
+//@   invariant idx:   -1 <= rangeindex && rangeindex + 1 <= len(dirs)
+//@   invariant done:  forall i int :: 0 <= i && i <= rangeindex ==> dirs[i].Count < u.maxCount
+//@   invariant names: forall i int :: 0 <= i && i < len(dirs) ==> uuidCanonical(dirs[i].Name)
+//@   invariant roots: forall j int :: 0 <= j && j < len(roots) ==> exists i int :: 0 <= i && i < len(dirs) && dirs[i].Root == roots[j].Path
+//@   decreases len(dirs) - rangeindex
